@@ -9,6 +9,8 @@ import ZChain.Generated.C20
      item: `F=n<dec>;F=s<text>;F=l<a>,<b>;F=m<k>:<dec>,<k>:<dec>` (fields separated by `;`)
 `merge`                                              mergeEvents on the emitted events            → `ok M… ; O…` | `invalid` | `panic`
 `handle`                                             the three bridge handlers on the merge result → `bt=… burn=… users=… mint=…`
+`process <fail|ok>`                                  ProcessEvents on the emitted events (real worker, transaction, commit or rollback);
+                                                     `fail` = the burn_tickets insert fails once          → `err=<0|1> tickets=<n> events=<n>`
 
 Canonical output: payloads of a merged event are printed sorted (Go returns them in map order). -/
 namespace ZChain.Drv.C20
@@ -19,6 +21,8 @@ structure St where
   hash : String := ""
   evs : List Event := []       -- reversed
   res : Option (Except Err Result) := none
+  tickets : Nat := 0      -- rows in burn_tickets committed so far in this case
+  dbEvents : Nat := 0     -- rows in events committed so far in this case
 
 def parseVal (s : String) : Option Val :=
   if s.isEmpty then none else
@@ -130,6 +134,29 @@ def step (st : St) (ws : List String) : St × String :=
   | ["merge"] =>
     let r := mergeEvents Gen.table st.evs.reverse
     ({ st with res := some r }, showResult st r)
+  | ["process", mode] =>
+    if mode ≠ "fail" ∧ mode ≠ "ok" then (st, "bad-op") else
+    match mergeEvents Gen.table st.evs.reverse with
+    | .error _ => (st, s!"err=1 tickets={st.tickets} events={st.dbEvents}")
+    | .ok r =>
+      let fault := mode = "fail"
+      let bt := r.merged.find? (·.tag = Gen.TagAddBurnTicket)
+      let btRows : Option Nat := match bt with
+        | none => some 0
+        | some m => match burnTicketRows Gen.table m.items with
+          | .ok rows => some rows.length
+          | .error _ => none
+      let mintFails := match r.merged.find? (·.tag = Gen.TagAddBridgeMint) with
+        | some m => bridgeMintFails m.items
+        | none => false
+      let insertAttempted := bt.isSome && btRows.isSome
+      let handlerFails := (fault && insertAttempted) || btRows.isNone || mintFails
+      if handlerFails && errorsPropagate Gen.errorFlow then
+        (st, s!"err=1 tickets={st.tickets} events={st.dbEvents}")
+      else
+        let stored := if fault then 0 else btRows.getD 0
+        let st' := { st with tickets := st.tickets + stored, dbEvents := st.dbEvents + r.merged.length + r.others.length }
+        (st', s!"err=0 tickets={st'.tickets} events={st'.dbEvents}")
   | ["handle"] =>
     match st.res with
     | some (.ok r) => (st, handle st.evs r)
